@@ -173,6 +173,13 @@ def finish(acc, rule, assumptions, exhaustive=False, minimiser=None):
             sout = execute([small], jobs=1)[0]
             if oracle_of(sout) != oracle:
                 small, sout = case, out
+            # make the replay explicit: a drawn crash image is replaced by the resolved one
+            if small.get("crash") and isinstance(small["crash"].get("image"), dict) and "draw" in small["crash"]["image"] and sout.get("image") is not None:
+                expl = copy.deepcopy(small)
+                expl["crash"]["image"] = sout["image"]
+                eout = execute([expl], jobs=1)[0]
+                if oracle_of(eout) == oracle:
+                    small, sout = expl, eout
             # a minimised case may turn out to be a known finding; then look for another one
             if findings.match(prop, small, sout) is not None:
                 log(f"[{prop}] minimised case matches a known finding; reporting the unminimised run")
@@ -265,10 +272,319 @@ def check_c12(tier, seed):
     return finish(acc, rule, ASSUME_COMMON + ["faults off"])
 
 
+# ------------------------------------------------------------------------------------- crash checks
+
+def splitmix(x):
+    x = (x + 0x9E3779B97F4A7C15) & 0xFFFFFFFFFFFFFFFF
+    z = x
+    z = ((z ^ (z >> 30)) * 0xBF58476D1CE4E5B9) & 0xFFFFFFFFFFFFFFFF
+    z = ((z ^ (z >> 27)) * 0x94D049BB133111EB) & 0xFFFFFFFFFFFFFFFF
+    return x, z ^ (z >> 31)
+
+
+class PRng:
+    def __init__(self, seed):
+        self.s = seed & 0xFFFFFFFFFFFFFFFF
+
+    def next(self):
+        self.s, v = splitmix(self.s)
+        return v
+
+    def below(self, n):
+        return self.next() % n if n > 0 else 0
+
+    def chance(self, num, den):
+        return self.below(den) < num
+
+
+def crash_points(trace, interesting):
+    """Collapse the event list into weighted crash-point candidates. Consecutive writes to the same
+    path are near-equivalent crash points: keep the first, the last and one in the middle."""
+    pts = []
+    i = 0
+    n = len(trace)
+    while i < n:
+        ordn, kind, path, ln = trace[i]
+        j = i
+        if kind == "write":
+            while j + 1 < n and trace[j + 1][1] == "write" and trace[j + 1][2] == path:
+                j += 1
+        idxs = sorted(set([i, j, (i + j) // 2]))
+        for k in idxs:
+            o, kd, pth, _ = trace[k]
+            w = 1.0
+            cls = window_class(kd, pth)
+            if any(t in cls for t in interesting):
+                w = 6.0
+            if "kg-metadata-tmp" in cls and kd == "write":
+                w = 0.3
+            pts.append((o, cls, w))
+        i = j + 1
+    return pts
+
+
+def weighted_sample(rng, pts, k):
+    out = []
+    pool = list(pts)
+    for _ in range(min(k, len(pool))):
+        tot = sum(p[2] for p in pool)
+        x = (rng.next() % 10**9) / 10**9 * tot
+        acc = 0
+        for idx, p in enumerate(pool):
+            acc += p[2]
+            if acc >= x:
+                out.append(pool.pop(idx))
+                break
+    return out
+
+
+def crash_check(prop, tier, seed, family, post_family, oracles, interesting, n_hist_quick, k_quick, n_hist_thorough, rule, assumptions,
+                second_ratio=5, level="fault_enumeration"):
+    acc = Acc(prop, tier, seed, oracles, level)
+    n_hist = n_hist_quick if tier == "quick" else n_hist_thorough
+    hist = gen(family, seed, 0, n_hist)
+    post_ops = gen(post_family, seed, 0, 1)[0]["ops"]
+    dry = []
+    for c in hist:
+        d = copy.deepcopy(c)
+        d["want_trace"] = True
+        dry.append(d)
+    t = time.time()
+    douts = execute(dry)
+    log(f"[{prop}] {len(dry)} dry runs in {time.time() - t:.1f}s")
+    cases = []
+    windows = collections.Counter()
+    crashpoints_total = 0
+    for c, d in zip(hist, douts):
+        acc.add(c, {k: v for k, v in d.items() if k != "trace"}, False)
+        if d.get("status") != "ok":
+            continue
+        pts = crash_points(d.get("trace", []), interesting)
+        crashpoints_total += len(pts)
+        rng = PRng(c["seed"] ^ 0xC0FFEE)
+        if tier == "quick":
+            chosen = weighted_sample(rng, pts, k_quick)
+            variants = 1
+        else:
+            chosen = pts
+            variants = 2
+        m = d.get("events", 0)
+        if rng.chance(1, 2) or tier != "quick":
+            chosen = chosen + [(m + 5, "boundary:end-of-history", 1.0)]
+        for (ordn, cls, _w) in chosen:
+            for v in range(variants):
+                cc = copy.deepcopy(c)
+                second = None
+                if rng.chance(1, second_ratio):
+                    second = [rng.below(80), {"draw": rng.next()}]
+                cc["crash"] = {"at": ordn, "inflight_write": rng.chance(1, 2), "image": ("l0" if (variants > 1 and v == 0) else {"draw": rng.next()}), "second": second}
+                cc["post_ops"] = post_ops
+                cases.append(cc)
+                windows[cls] += 1
+    t = time.time()
+    outs = execute(cases, timeout_s=300)
+    log(f"[{prop}] {len(cases)} crash runs in {time.time() - t:.1f}s")
+    determinism_spot_check(cases, outs, k=12)
+    for c, o in zip(cases, outs):
+        acc.add(c, o, (o.get("crash_fired") or o.get("crash_boundary")) and has_kind(c, ("insert", "delete", "register_rule", "register_schema", "create_kg", "drop_kg", "drop_relation")))
+    acc.extra["histories"] = len(hist)
+    acc.extra["crash_point_candidates_after_collapsing"] = crashpoints_total
+    acc.extra["crash_windows_targeted"] = dict(windows.most_common(40))
+    acc.extra["exhaustive_crash_points_per_history"] = tier != "quick"
+    return finish(acc, rule, assumptions)
+
+
+def check_c13(tier, seed):
+    oracles = ["reopen_failed_after_crash", "recovered_not_prefix_facts", "not_a_set", "observe_failed", "reopen_failed",
+               "restart_differs_facts", "post:restart_differs_facts", "post:live_differs_from_model_facts", "post:reopen_failed",
+               "post:report_mismatch", "post:not_a_set", "post:query_differs_from_snapshot", "post:query_failed", "post:op_result_class",
+               "live_differs_from_model_facts", "open_failed"]
+    rule = ("stage 1: seeded histories of 2-8 operations (insert/delete incl. duplicates and absent tuples, save, compact, drop relation, create/drop KG, "
+            "restart) in immediate mode with buffer_size/max_wal knobs, run fault-free to record the file-system event list; stage 2: one crash per run at a "
+            "file-system event (quick: weighted sample biased to flush/compaction/WAL-rewrite/drop windows; thorough: every collapsed crash point x {L0, drawn "
+            "L1 image}) or at the end of the history, crash image drawn from {L0 process kill, L1 power loss with lost namespace suffix / lost or torn unsynced "
+            "data}, every fifth run crashes a second time inside recovery; oracles: store reopens, contents = acknowledged prefix (+/- the in-flight operation, "
+            "atomically), then 7 more operations incl. delete/re-insert/query and two clean restarts must match the model (latent damage, bounded liveness); "
+            "non-trivial = a crash fired and the history contains a state-changing operation")
+    return crash_check("C13", tier, seed, "c13", "post_standard", oracles,
+                       ["batch", "shard-meta", "wal", "unlink", "rename", "rmdir"], 260, 6, 150, rule,
+                       ASSUME_COMMON + ["immediate durability mode only (the property's scope)", "rule/schema catalog writes are left to C16"])
+
+
+def check_c16(tier, seed):
+    oracles = ["reopen_failed_after_crash", "recovered_not_prefix_rules", "recovered_not_prefix_schemas", "recovered_not_prefix_facts",
+               "restart_differs_rules", "restart_differs_schemas", "reopen_failed", "open_failed", "observe_failed",
+               "live_differs_from_model_rules", "live_differs_from_model_schemas",
+               "post:restart_differs_rules", "post:restart_differs_schemas", "post:reopen_failed", "post:live_differs_from_model_rules",
+               "post:live_differs_from_model_schemas", "post:report_mismatch", "post:op_result_class", "report_mismatch"]
+    rule = ("stage 1: seeded histories of 2-8 catalog operations (register rule: new rule / added clause / duplicate clause, drop rule, clear rule, remove "
+            "clause, register/remove schema) with data inserts and clean restarts in between on 1-2 knowledge graphs; stage 2: one crash per run at a "
+            "file-system event (biased to the catalog files: open(O_TRUNC), each write, close window) or at the end, image drawn from {L0, L1 variants}, "
+            "optional second crash inside recovery; oracles: store reopens, every KG opens, rule names + clause counts + describe text and schemas = "
+            "acknowledged prefix or that prefix plus the in-flight catalog operation (old or new, never a third state, never silently empty), then a rule "
+            "registration / restart / drop / restart tail must match the model; non-trivial = crash fired and history has a catalog operation")
+    return crash_check("C16", tier, seed, "c16", "post_catalog", oracles,
+                       ["rule-catalog", "schema-catalog"], 300, 6, 200, rule,
+                       ASSUME_COMMON + ["immediate durability mode", "rule texts come from a fixed pool of 8 safe bodies; describe text equality is checked across restarts"])
+
+
+def check_c17(tier, seed):
+    """history half (a): multi-KG histories with prefix-related names and restarts, faults off"""
+    acc = Acc("C17", tier, seed, ["restart_differs_facts", "restart_differs_rules", "restart_differs_schemas", "reopen_failed",
+                                  "live_differs_from_model_facts", "live_differs_from_model_rules", "live_differs_from_model_schemas",
+                                  "not_a_set", "observe_failed", "op_result_class", "report_mismatch"], "exploration")
+    n = 2500 if tier == "quick" else 80000
+    cases = gen("c17", seed, 0, n)
+    outs = execute(cases)
+    determinism_spot_check(cases, outs)
+    for c, o in zip(cases, outs):
+        acc.add(c, o, has_kind(c, ("drop_kg",)) and has_kind(c, ("insert",)) and o.get("restarts", 0) > 0)
+    rule = ("seeded histories of 4-14 operations over 3-4 knowledge graphs whose names are prefixes of each other (a, ab, a_b / default, default2): "
+            "create/drop/re-create, inserts/deletes (also addressed to dropped or never-created graphs), rules, schemas, saves, compactions, clean restarts; "
+            "oracle after every step and every restart: the set of graphs and every graph's facts/rules/schemas = model (so another graph's state is "
+            "untouched, a dropped graph never reappears, a re-created graph is empty); non-trivial = history contains a drop, an insert and a restart")
+    return finish(acc, rule, ASSUME_COMMON + ["faults off; the schedule half (insert || drop || re-create) is the conc scenario"])
+
+
+# ------------------------------------------------------------------------------------- C14 (twin runs)
+
+MAINT_OPS = [{"op": "save_all"}, {"op": "compact_all"}, {"op": "save_kg", "kg": "default"}, {"op": "compact_if_needed", "threshold": 1},
+             {"op": "compact_if_needed", "threshold": 2}]
+
+
+def c14_make_twin(base, rng):
+    """A = base history without maintenance (big buffer, immediate); B = same history with seeded knobs and maintenance operations woven in.
+    Returns (A, B, posA, posB): positions of the base operations inside each op list."""
+    a = copy.deepcopy(base)
+    a["cfg"] = {"buffer_size": 10000, "max_wal": 0, "durability": "immediate", "num_threads": 1}
+    b = copy.deepcopy(base)
+    b["cfg"] = {"buffer_size": [1, 2, 3][rng.below(3)], "max_wal": [0, 300, 2000][rng.below(3)],
+                "durability": ["immediate", "batched", "async"][rng.below(3)], "num_threads": [1, 2, 4][rng.below(3)]}
+    ops_b, pos_b = [], []
+    for op in base["ops"]:
+        while rng.chance(2, 5):
+            ops_b.append(copy.deepcopy(MAINT_OPS[rng.below(len(MAINT_OPS))]))
+        pos_b.append(len(ops_b))
+        ops_b.append(copy.deepcopy(op))
+    while rng.chance(1, 2):
+        ops_b.append(copy.deepcopy(MAINT_OPS[rng.below(len(MAINT_OPS))]))
+    a["ops"] = base["ops"] + [{"op": "shutdown_restart"}]
+    b["ops"] = ops_b + [{"op": "shutdown_restart"}]
+    return a, b, list(range(len(base["ops"]))), pos_b
+
+
+def c14_compare(a, b, oa, ob, pos_a, pos_b):
+    """Returns None or (oracle, detail)."""
+    for o in (oa, ob):
+        if o.get("status") != "ok":
+            return None  # reported through the ordinary oracles / harness path
+    ha = {(st, ph): h for st, ph, h in oa.get("step_hashes", [])}
+    hb = {(st, ph): h for st, ph, h in ob.get("step_hashes", [])}
+    for j, (pa, pb) in enumerate(zip(pos_a, pos_b)):
+        if a["ops"][pa].get("op") == "probe":
+            continue
+        if ha.get((pa, 0)) != hb.get((pb, 0)):
+            return ("maintenance_changes_live_state", f"after base op #{j} {json.dumps(a['ops'][pa])[:200]}: plain run and maintained run serve different contents")
+    ra = ha.get((len(a["ops"]) - 1, 2))
+    rb = hb.get((len(b["ops"]) - 1, 2))
+    if ra != rb:
+        return ("maintenance_changes_recovered_state", f"after the final restart: plain {json.dumps(oa.get('final_obs'))[:400]} maintained {json.dumps(ob.get('final_obs'))[:400]}")
+    return None
+
+
+def check_c14(tier, seed):
+    oracles = ["maintenance_changes_live_state", "maintenance_changes_recovered_state", "live_differs_from_model_facts", "report_mismatch",
+               "query_differs_from_snapshot", "query_failed", "op_result_class", "not_a_set", "observe_failed", "reopen_failed", "op_failed",
+               "restart_differs_facts"]
+    acc = Acc("C14", tier, seed, oracles, "exploration")
+    n = 1500 if tier == "quick" else 50000
+    bases = gen("c14", seed, 0, n)
+    pairs = []
+    cases = []
+    for base in bases:
+        rng = PRng(base["seed"] ^ 0x14)
+        a, b, pa, pb = c14_make_twin(base, rng)
+        pairs.append((a, b, pa, pb))
+        cases += [a, b]
+    outs = execute(cases)
+    determinism_spot_check(cases, outs)
+    modes = collections.Counter()
+    maint = collections.Counter()
+    for i, (a, b, pa, pb) in enumerate(pairs):
+        oa, ob = outs[2 * i], outs[2 * i + 1]
+        modes[b["cfg"]["durability"]] += 1
+        for op in b["ops"]:
+            if op["op"] in ("save_all", "compact_all", "save_kg", "compact_if_needed"):
+                maint[op["op"]] += 1
+        diff = c14_compare(a, b, oa, ob, pa, pb)
+        if diff and not ob.get("failure"):
+            ob = dict(ob)
+            ob["status"] = "fail"
+            ob["failure"] = {"oracle": diff[0], "step": -1, "detail": diff[1]}
+            b = dict(b)
+            b["twin"] = a
+        # failures of the plain run A are not maintenance effects; they are foreign here
+        if oa.get("failure"):
+            acc.foreign["plain_run:" + oa["failure"]["oracle"]] += 1
+            oa = dict(oa)
+            oa["failure"] = None
+            oa["status"] = "ok"
+        acc.add(a, oa, False)
+        acc.add(b, ob, any(op["op"] in ("save_all", "compact_all", "save_kg", "compact_if_needed") for op in b["ops"]) and has_kind(b, ("insert", "delete")))
+    acc.extra["durability_modes"] = dict(modes)
+    acc.extra["maintenance_ops_woven_in"] = dict(maint)
+    rule = ("twin runs: a seeded base history of 3-10 writes/probes is run (A) with buffer_size=10000, no WAL limit, immediate mode and no maintenance, and (B) with "
+            "buffer_size in {1,2,3}, max_wal in {0,300,2000}, durability in {immediate,batched,async} and save_all/save_kg/compact_all/compact_if_needed woven in "
+            "at seeded positions; both end with a graceful shutdown + restart; oracle: after every base operation the served contents of B = A (= set model), "
+            "write reports equal, pipeline queries = snapshot, and the recovered state of B = A; non-trivial = B contains a maintenance operation and a write")
+    return finish(acc, rule, ASSUME_COMMON + ["faults off", "restart comparison is differential (B vs A); a history on which A itself disagrees with the model after restart is counted as foreign (plain_run:*)"],
+                  minimiser=lambda case, oracle: case)
+
+
 CHECKS = {
     "C11": check_c11,
     "C12": check_c12,
+    "C13": check_c13,
+    "C14": check_c14,
+    "C16": check_c16,
+    "C17": check_c17,
 }
+
+
+def replay(path):
+    """Re-run a replay file in a fresh process; exit 1 (with the VIOLATION line) iff it fails the same way."""
+    doc = json.load(open(path))
+    vlib.build()
+    case = doc["case"]
+    expected = doc.get("expected_oracle")
+    if "twin" in case:
+        a = case["twin"]
+        b = {k: v for k, v in case.items() if k != "twin"}
+        oa, ob = execute([a, b], jobs=2)
+        base_ops = [op for op in a["ops"][:-1]]
+        pos_a = list(range(len(base_ops)))
+        pos_b, j = [], 0
+        for i, op in enumerate(b["ops"][:-1]):
+            if j < len(base_ops) and op == base_ops[j]:
+                pos_b.append(i)
+                j += 1
+        diff = c14_compare(a, b, oa, ob, pos_a, pos_b) if len(pos_b) == len(pos_a) else None
+        got = oracle_of(ob) or (diff[0] if diff else None)
+        detail = (ob.get("failure") or {}).get("detail") or (diff[1] if diff else None)
+        out = ob
+    else:
+        out = execute([case], jobs=1)[0]
+        got = oracle_of(out)
+        detail = (out.get("failure") or {}).get("detail")
+    print(json.dumps({"expected_oracle": expected, "got_oracle": got, "detail": detail, "status": out.get("status")}, indent=1))
+    if got is not None and got == expected:
+        print(f"VIOLATION property={doc['property']} replay={path}")
+        return 1
+    if got is None and out.get("status") == "ok":
+        print("replay did not reproduce the failure (the property holds on this tree for this case)")
+        return 0
+    print("replay produced a different result than recorded")
+    return 2
 
 
 # ------------------------------------------------------------------------------------- selftests
